@@ -755,6 +755,9 @@ func runC06(w *eng.W) {
 			{c + " ? .5 : 3", c + "?.5:3"}, {c + " ? 3 : .5", c + "?3:.5"}, {c + " ?? .5", c + "??.5"}, {c + " && .5", c + "&&.5"}, {c + " || .5", c + "||.5"},
 			{"!" + c + " ? .5 : .25", "!" + c + "?.5:.25"}, {c + " ? 'T' : 'F'", c + "?'T':'F'"}, {c + " ? (.5) : [.5]", c + "?(.5):[.5]"},
 			// a conditional laid out over several lines (the operators begin the continuation lines)
+			// assignments as branches and right operands, with and without the parentheses nobody needs
+			{c + " ? ($p1 = 1) : ($p2 = 2), $p1, $p2", c + " ? $p1 = 1 : $p2 = 2, $p1, $p2"}, {c + " ? (1 ? ($p1 = 1) : ($p1 = 2)) : 3, $p1", c + " ? 1 ? $p1 = 1 : $p1 = 2 : 3, $p1"},
+			{c + " ? 3 : (0 ? ($p1 = 1) : ($p2 = 2)), $p1, $p2", c + " ? 3 : 0 ? $p1 = 1 : $p2 = 2, $p1, $p2"}, {"$p3 = (" + c + " ? ($p1 = 1) : 2), $p3, $p1", "$p3 = " + c + " ? $p1 = 1 : 2, $p3, $p1"},
 			{c + " ? 'T' : 'F'", c + "\n  ? 'T'\n  : 'F'"}, {c + " ? .5 : 3", c + "\r\n?\r\n.5\r\n:\r\n3"}, {c + " && .5", c + "\n  && .5"}, {c + " || .5", c + "\n|| .5"}, {c + " ?? .5", c + "\n\t?? .5"},
 		} {
 			if !selVals[ci].NegOK && strings.HasPrefix(pair[0], "!") {
